@@ -6,6 +6,6 @@ CONSTANTS
   Vals = {"1"}
   MaxSamples = 3
   EmitMode = "all"
-INVARIANTS ExactlyInput ExactWhenNonNegative Aligned OnlyInput RejectedWhole EmitState
+INVARIANTS ExactlyInput AlignIsFloor Aligned OnlyInput RejectedWhole EmitState
 PROPERTIES Terminates
 CHECK_DEADLOCK FALSE
